@@ -1,4 +1,5 @@
 SPECIFICATION Spec
-CONSTANT N = 2
+CONSTANTS DoubleMembers = TRUE
+ N = 2
 INVARIANTS DecisionSound DecisionExact Emit
 CHECK_DEADLOCK FALSE
